@@ -30,10 +30,12 @@ def shim_max(*args, **kw):
     if len(args) == 1 and not kw:
         xs = list(args[0])
         if xs and _any_sym(xs):
-            return symx.smax(*_drop(xs, -_INF))
+            ys = _drop(xs, -_INF)
+            return ys[0] if len(ys) == 1 else symx.smax(*ys)
         return builtins.max(xs)
     if not kw and _any_sym(args):
-        return symx.smax(*_drop(args, -_INF))
+        ys = _drop(args, -_INF)
+        return ys[0] if len(ys) == 1 else symx.smax(*ys)
     return builtins.max(*args, **kw)
 
 
@@ -41,10 +43,12 @@ def shim_min(*args, **kw):
     if len(args) == 1 and not kw:
         xs = list(args[0])
         if xs and _any_sym(xs):
-            return symx.smin(*_drop(xs, _INF))
+            ys = _drop(xs, _INF)
+            return ys[0] if len(ys) == 1 else symx.smin(*ys)
         return builtins.min(xs)
     if not kw and _any_sym(args):
-        return symx.smin(*_drop(args, _INF))
+        ys = _drop(args, _INF)
+        return ys[0] if len(ys) == 1 else symx.smin(*ys)
     return builtins.min(*args, **kw)
 
 
